@@ -441,4 +441,353 @@ theorem parseIpv6_render (gs : List Nat) (hlen : gs.length = 8) (hgs : ∀ g ∈
   unfold parseIpv6
   simp [h, hlen]
 
+/-! ### Chaosnet addresses: octal digits -/
+
+/-- value of octal digit octets, read left to right from `acc` -/
+def octVal (ds : List UInt8) (acc : Nat) : Nat := ds.foldl (fun a c => a * 8 + (c.toNat - 48)) acc
+
+theorem octVal_ge (ds : List UInt8) (acc : Nat) : acc ≤ octVal ds acc := by
+  induction ds generalizing acc with
+  | nil => exact Nat.le_refl _
+  | cons c ds ih =>
+    simp only [octVal, List.foldl_cons] at ih ⊢
+    have := ih (acc * 8 + (c.toNat - 48))
+    omega
+
+theorem octalText_digits (n : Nat) : ∀ c ∈ octalText n, ∃ d, d < 8 ∧ c = digitOctet d := by
+  fun_induction octalText n
+  case case1 n h => intro c hc; simp at hc; exact ⟨n, h, hc⟩
+  case case2 n h ih =>
+    intro c hc
+    simp at hc
+    rcases hc with hc | hc
+    · exact ih c hc
+    · exact ⟨n % 8, by omega, hc⟩
+
+theorem octalText_ne_nil (n : Nat) : octalText n ≠ [] := by
+  rw [octalText]; split <;> simp
+
+theorem octVal_octalText (n acc : Nat) : octVal (octalText n) acc = acc * 8 ^ (octalText n).length + n := by
+  fun_induction octalText n generalizing acc
+  case case1 n h =>
+    have := (digit_octet (d := n) (by omega)).2
+    simp [octVal, this]
+  case case2 n h ih =>
+    have hd := (digit_octet (d := n % 8) (by omega)).2
+    unfold octVal at ih ⊢
+    rw [List.foldl_append, ih]
+    simp only [List.foldl_cons, List.foldl_nil, hd, List.length_append, List.length_cons, List.length_nil]
+    rw [Nat.pow_succ, ← Nat.mul_assoc]
+    generalize acc * 8 ^ (octalText (n / 8)).length = X
+    have := Nat.div_add_mod n 8
+    rw [Nat.add_mul, Nat.add_assoc, Nat.mul_comm (n / 8) 8]
+    omega
+
+/-- the loop of `parse_chaosnet_address` on octal digits followed by a field end -/
+theorem chaosLoop_digits (sl : Nat) (ds rest : List UInt8) (hds : ∀ c ∈ ds, ∃ d, d < 8 ∧ c = digitOctet d)
+    (hrest : atFieldEnd rest = true) (acc : Nat) (hv : octVal ds acc ≤ 65535) :
+    chaosLoop sl (ds ++ rest) acc = .ok (octVal ds acc, rest) := by
+  induction ds generalizing acc with
+  | nil =>
+    cases rest with
+    | nil => rfl
+    | cons c t => simp [chaosLoop, hrest, octVal]
+  | cons c ds ih =>
+    obtain ⟨d, hd, rfl⟩ := hds c (by simp)
+    have hdo := digit_octet (d := d) (by omega)
+    have hplain : atFieldEnd (digitOctet d :: (ds ++ rest)) = false :=
+      atFieldEnd_plain _ (by
+        have := digit_plain hdo.1
+        simp only [plainOctet, Bool.and_eq_true, Bool.not_eq_true'] at this
+        exact this.1)
+    have hoct : (48 ≤ digitOctet d && digitOctet d ≤ 55) = true := by
+      simp only [Bool.and_eq_true, decide_eq_true_eq, UInt8.le_iff_toNat_le, hdo.2]
+      have h48 : (48 : UInt8).toNat = 48 := rfl
+      have h55 : (55 : UInt8).toNat = 55 := rfl
+      exact ⟨by omega, by omega⟩
+    have hstep : octVal (digitOctet d :: ds) acc = octVal ds (acc * 8 + d) := by
+      simp [octVal, hdo.2]
+    have hacc : ¬ acc * 8 > 65535 := by
+      have := octVal_ge ds (acc * 8 + d)
+      rw [hstep] at hv
+      omega
+    simp only [List.cons_append, chaosLoop, hplain, Bool.false_eq_true, ↓reduceIte, hoct, hacc, hdo.2]
+    have : 48 + d - 48 = d := by omega
+    rw [this, ih (fun x hx => hds x (by simp [hx])) _ (by rw [← hstep]; exact hv), hstep]
+
+/-! ### IPv6 addresses with `::` -/
+
+/-- the text after a run of groups: nothing, or a colon (the `::`, or the separator) -/
+def ColonOrEnd (R : List UInt8) : Prop := R = [] ∨ ∃ X, R = 58 :: X
+
+theorem spanDigits10_head (H R : List UInt8) (hH : ∀ c ∈ H, c ≠ 46) (hR : ColonOrEnd R) :
+    (spanDigits 10 (H ++ R)).2.head? ≠ some 46 := by
+  induction H with
+  | nil =>
+    rcases hR with rfl | ⟨X, rfl⟩
+    · simp [spanDigits]
+    · simp [spanDigits, toDigit16_ne_colon.2]
+  | cons c H ih =>
+    have ih' := ih (fun x hx => hH x (by simp [hx]))
+    cases hd : toDigit 10 c with
+    | some d => simpa [spanDigits, hd] using ih'
+    | none => simpa [spanDigits, hd] using hH c (by simp)
+
+theorem readIpv4_none_of_span (s : List UInt8) (h : (spanDigits 10 s).2.head? ≠ some 46) : readIpv4 s = none := by
+  unfold readIpv4
+  simp only [readSep, Nat.lt_irrefl, ↓reduceIte]
+  cases hn : readNumber 10 3 255 false s with
+  | none => rfl
+  | some ar =>
+    obtain ⟨a, s1⟩ := ar
+    have hs1 : s1 = (spanDigits 10 s).2 := by
+      unfold readNumber at hn
+      simp only at hn
+      split at hn
+      · cases hn
+      · split at hn
+        · cases hn
+        · split at hn
+          · cases hn
+          · split at hn
+            · cases hn
+            · simp only [Option.some.injEq, Prod.mk.injEq] at hn; exact hn.2.symm
+    subst hs1
+    cases hr : (spanDigits 10 s).2 with
+    | nil => simp [readChar]
+    | cons c t =>
+      rw [hr] at h
+      have hc : (c == 46) = false := by simpa using h
+      simp [readChar, hc]
+
+theorem readIpv4_group (g : Nat) (R : List UInt8) (hR : ColonOrEnd R) : readIpv4 (hexText g ++ R) = none :=
+  readIpv4_none_of_span _ (spanDigits10_head _ R (by
+    intro c hc
+    obtain ⟨d, hd, rfl⟩ := hexText_digits g c hc
+    exact (hexDigit_facts d hd).2.2.1) hR)
+
+theorem readIpv4_stop (R : List UInt8) (hR : ColonOrEnd R) : readIpv4 R = none := by
+  have := readIpv4_none_of_span R (by simpa using spanDigits10_head [] R (by simp) hR)
+  exact this
+
+theorem readNumber16_stop (R : List UInt8) (hR : ColonOrEnd R) : readNumber 16 4 65535 true R = none := by
+  rcases hR with rfl | ⟨X, rfl⟩
+  · simp [readNumber, spanDigits]
+  · simp [readNumber, spanDigits, toDigit16_ne_colon.1]
+
+theorem ColonOrEnd.hex {R : List UInt8} (hR : ColonOrEnd R) : ∀ c t, R = c :: t → toDigit 16 c = none := by
+  intro c t h
+  rcases hR with rfl | ⟨X, rfl⟩
+  · cases h
+  · cases h; exact toDigit16_ne_colon.1
+
+/-- the text of a run of groups read from group index `i` on: a separating colon first if `i > 0` -/
+def groupsFrom (i : Nat) (gs : List Nat) (R : List UInt8) : List UInt8 :=
+  match gs with
+  | [] => R
+  | _ :: _ => (if i > 0 then [58] else []) ++ (groupsText gs ++ R)
+
+/-- `read_groups` reads a run of rendered groups and stops before `R` (the end, or `::`) -/
+theorem readGroups_run (L : Nat) (gs : List Nat) (hgs : ∀ g ∈ gs, g < 65536) (R : List UInt8)
+    (hR : R = [] ∨ ∃ X, R = 58 :: 58 :: X) (n i : Nat) (hn : gs.length ≤ n) :
+    readGroups L n i (groupsFrom i gs R) = (gs, false, R) := by
+  have hRc : ColonOrEnd R := by
+    rcases hR with h | ⟨X, h⟩
+    · exact .inl h
+    · exact .inr ⟨_, h⟩
+  -- the attempt that stops the run, on `R` itself
+  have hstop : ∀ m j, readGroups L m j R = ([], false, R) := by
+    intro m j
+    cases m with
+    | zero => rfl
+    | succ m =>
+      rw [readGroups]
+      have hv4 : (if j + 1 < L then readSep 58 j readIpv4 R else none) = none := by
+        split
+        · unfold readSep
+          split
+          · rcases hR with rfl | ⟨X, rfl⟩
+            · rfl
+            · simp [readChar, readIpv4_stop (58 :: X) (.inr ⟨X, rfl⟩)]
+          · exact readIpv4_stop R hRc
+        · rfl
+      have hnum : readSep 58 j (readNumber 16 4 65535 true) R = none := by
+        unfold readSep
+        split
+        · rcases hR with rfl | ⟨X, rfl⟩
+          · rfl
+          · simp [readChar, readNumber16_stop (58 :: X) (.inr ⟨X, rfl⟩)]
+        · exact readNumber16_stop R hRc
+      simp only [hv4, hnum]
+  induction gs generalizing n i with
+  | nil => exact hstop n i
+  | cons g gs ih =>
+    have hg := hgs g (by simp)
+    cases n with
+    | zero => simp at hn
+    | succ n =>
+      -- what follows the group `g`
+      have hfollow : ∃ F, groupsFrom i (g :: gs) R = (if i > 0 then [58] else []) ++ (hexText g ++ F) ∧
+          ColonOrEnd F ∧ F = groupsFrom (i + 1) gs R := by
+        cases gs with
+        | nil => exact ⟨R, by simp [groupsFrom, groupsText], hRc, rfl⟩
+        | cons g2 gs' =>
+          exact ⟨58 :: (groupsText (g2 :: gs') ++ R), by simp [groupsFrom, groupsText], .inr ⟨_, rfl⟩,
+            by simp [groupsFrom]⟩
+      obtain ⟨F, hF1, hF2, hF3⟩ := hfollow
+      rw [hF1, readGroups]
+      have hv4 : (if i + 1 < L then readSep 58 i readIpv4 ((if i > 0 then [58] else []) ++ (hexText g ++ F)) else none) = none := by
+        split
+        · unfold readSep
+          by_cases h0 : i > 0
+          · simp [h0, readChar, readIpv4_group g F hF2]
+          · simp [h0, readIpv4_group g F hF2]
+        · rfl
+      have hnum : readSep 58 i (readNumber 16 4 65535 true) ((if i > 0 then [58] else []) ++ (hexText g ++ F)) =
+          some (g, F) := by
+        unfold readSep
+        by_cases h0 : i > 0
+        · simp [h0, readChar, readNumber_hex g hg F hF2.hex]
+        · simp [h0, readNumber_hex g hg F hF2.hex]
+      simp only [hv4, hnum]
+      rw [hF3, ih (fun x hx => hgs x (by simp [hx])) n (i + 1) (by simpa using hn)]
+
+def zeros (n : Nat) : List Nat := List.replicate n 0
+
+theorem parseIpv6_compressed (hd tl : List Nat) (hlen : hd.length + tl.length ≤ 7)
+    (hhd : ∀ g ∈ hd, g < 65536) (htl : ∀ g ∈ tl, g < 65536) :
+    parseIpv6 (groupsText hd ++ (58 :: 58 :: groupsText tl)) =
+      some ((hd ++ List.replicate (8 - hd.length - tl.length) 0 ++ tl).flatMap u16be') := by
+  have h1 := readGroups_run 8 hd hhd (58 :: 58 :: groupsText tl) (.inr ⟨_, rfl⟩) 8 0 (by omega)
+  have e1 : groupsFrom 0 hd (58 :: 58 :: groupsText tl) = groupsText hd ++ (58 :: 58 :: groupsText tl) := by
+    cases hd <;> simp [groupsFrom, groupsText]
+  rw [e1] at h1
+  have h2 := readGroups_run (8 - (hd.length + 1)) tl htl [] (.inl rfl) (8 - (hd.length + 1)) 0 (by omega)
+  have e2 : groupsFrom 0 tl [] = groupsText tl := by
+    cases tl <;> simp [groupsFrom, groupsText]
+  rw [e2] at h2
+  have e3 : 8 - (hd.length + 1) = 7 - hd.length := by omega
+  rw [e3] at h2
+  unfold parseIpv6
+  have hne : (hd.length == 8) = false := by simp; omega
+  simp [h1, hne, readChar, h2]
+
+/-! ### IPv6 addresses ending in a dotted quad -/
+
+theorem readIpv4_quad (a b c d : Nat) (ha : a < 256) (hb : b < 256) (hc : c < 256) (hd : d < 256) :
+    readIpv4 (quadText a b c d) = some ([UInt8.ofNat a, UInt8.ofNat b, UInt8.ofNat c, UInt8.ofNat d], []) := by
+  have hdot : ∀ X c t, (46 : UInt8) :: X = c :: t → toDigit 10 c = none := by
+    intro X c t h; cases h; decide
+  have hnil : ∀ c t, ([] : List UInt8) = c :: t → toDigit 10 c = none := by intro c t h; cases h
+  have hd' := readNumber_decimal d hd [] hnil
+  simp only [List.append_nil] at hd'
+  simp [quadText, readIpv4, readSep, readChar, readNumber_decimal a ha _ (hdot _), readNumber_decimal b hb _ (hdot _),
+    readNumber_decimal c hc _ (hdot _), hd']
+
+/-- a run of groups followed by a dotted quad, read from group index `i` on -/
+def runV (Q : List UInt8) : Nat → List Nat → List UInt8
+  | i, [] => (if i > 0 then [58] else []) ++ Q
+  | i, g :: gs => (if i > 0 then [58] else []) ++ (hexText g ++ runV Q (i + 1) gs)
+
+theorem runV_colon (Q : List UInt8) (i : Nat) (gs : List Nat) : ColonOrEnd (runV Q (i + 1) gs) := by
+  cases gs with
+  | nil => exact .inr ⟨Q, by simp [runV]⟩
+  | cons g gs => exact .inr ⟨hexText g ++ runV Q (i + 1 + 1) gs, by simp [runV]⟩
+
+theorem readGroups_run_v4 (L : Nat) (a b c d : Nat) (ha : a < 256) (hb : b < 256) (hc : c < 256) (hd : d < 256)
+    (gs : List Nat) (hgs : ∀ g ∈ gs, g < 65536) (n i : Nat) (hn : gs.length + 1 ≤ n) (hv : i + gs.length + 1 < L) :
+    readGroups L n i (runV (quadText a b c d) i gs) = (gs ++ [a * 256 + b, c * 256 + d], true, []) := by
+  induction gs generalizing n i with
+  | nil =>
+    cases n with
+    | zero => simp at hn
+    | succ n =>
+      rw [readGroups]
+      have hlt : i + 1 < L := by simpa using hv
+      have hq := readIpv4_quad a b c d ha hb hc hd
+      have hv4 : (if i + 1 < L then readSep 58 i readIpv4 (runV (quadText a b c d) i []) else none) =
+          some ([UInt8.ofNat a, UInt8.ofNat b, UInt8.ofNat c, UInt8.ofNat d], []) := by
+        simp only [hlt, ↓reduceIte, runV]
+        unfold readSep
+        by_cases h0 : i > 0
+        · simp [h0, readChar, hq]
+        · simp [h0, hq]
+      simp only [hv4]
+      have e : ∀ x, x < 256 → (UInt8.ofNat x).toNat = x := by
+        intro x hx; simp [UInt8.toNat_ofNat']; omega
+      simp [e a ha, e b hb, e c hc, e d hd]
+  | cons g gs ih =>
+    have hg := hgs g (by simp)
+    cases n with
+    | zero => simp at hn
+    | succ n =>
+      have hF := runV_colon (quadText a b c d) i gs
+      rw [readGroups]
+      have hv4 : (if i + 1 < L then readSep 58 i readIpv4 (runV (quadText a b c d) i (g :: gs)) else none) = none := by
+        split
+        · simp only [runV]
+          unfold readSep
+          by_cases h0 : i > 0
+          · simp [h0, readChar, readIpv4_group g _ hF]
+          · simp [h0, readIpv4_group g _ hF]
+        · rfl
+      have hnum : readSep 58 i (readNumber 16 4 65535 true) (runV (quadText a b c d) i (g :: gs)) =
+          some (g, runV (quadText a b c d) (i + 1) gs) := by
+        simp only [runV]
+        unfold readSep
+        by_cases h0 : i > 0
+        · simp [h0, readChar, readNumber_hex g hg _ hF.hex]
+        · simp [h0, readNumber_hex g hg _ hF.hex]
+      simp only [hv4, hnum]
+      rw [ih (fun x hx => hgs x (by simp [hx])) n (i + 1) (by simpa using hn) (by simp at hv ⊢; omega)]
+      simp
+
+theorem u16be'_v4 (a b : Nat) (ha : a < 256) (hb : b < 256) :
+    u16be' (a * 256 + b) = [UInt8.ofNat a, UInt8.ofNat b] := by
+  have h1 : (a * 256 + b) / 256 = a := by omega
+  have h2 : (a * 256 + b) % 256 = b := by omega
+  simp [u16be', h1, h2]
+
+/-- `h1:…:h6:a.b.c.d` -/
+theorem parseIpv6_full_v4 (hd : List Nat) (hlen : hd.length = 6) (hhd : ∀ g ∈ hd, g < 65536)
+    (a b c d : Nat) (ha : a < 256) (hb : b < 256) (hc : c < 256) (hdd : d < 256) :
+    parseIpv6 (runV (quadText a b c d) 0 hd) =
+      some (hd.flatMap u16be' ++ [UInt8.ofNat a, UInt8.ofNat b, UInt8.ofNat c, UInt8.ofNat d]) := by
+  have h := readGroups_run_v4 8 a b c d ha hb hc hdd hd hhd 8 0 (by omega) (by omega)
+  unfold parseIpv6
+  simp [h, hlen, u16be'_v4 a b ha hb, u16be'_v4 c d hc hdd]
+
+/-- `hd::tl:a.b.c.d` -/
+theorem parseIpv6_compressed_v4 (hd tl : List Nat) (hlen : hd.length + tl.length + 2 ≤ 7)
+    (hhd : ∀ g ∈ hd, g < 65536) (htl : ∀ g ∈ tl, g < 65536)
+    (a b c d : Nat) (ha : a < 256) (hb : b < 256) (hc : c < 256) (hdd : d < 256) :
+    parseIpv6 (groupsText hd ++ (58 :: 58 :: runV (quadText a b c d) 0 tl)) =
+      some ((hd ++ List.replicate (8 - hd.length - (tl.length + 2)) 0 ++ tl).flatMap u16be' ++
+        [UInt8.ofNat a, UInt8.ofNat b, UInt8.ofNat c, UInt8.ofNat d]) := by
+  have h1 := readGroups_run 8 hd hhd (58 :: 58 :: runV (quadText a b c d) 0 tl) (.inr ⟨_, rfl⟩) 8 0 (by omega)
+  have e1 : groupsFrom 0 hd (58 :: 58 :: runV (quadText a b c d) 0 tl) =
+      groupsText hd ++ (58 :: 58 :: runV (quadText a b c d) 0 tl) := by
+    cases hd <;> simp [groupsFrom, groupsText]
+  rw [e1] at h1
+  have h2 := readGroups_run_v4 (8 - (hd.length + 1)) a b c d ha hb hc hdd tl htl (8 - (hd.length + 1)) 0
+    (by omega) (by omega)
+  have e3 : 8 - (hd.length + 1) = 7 - hd.length := by omega
+  rw [e3] at h2
+  unfold parseIpv6
+  have hne : (hd.length == 8) = false := by simp; omega
+  simp [h1, hne, readChar, h2, u16be'_v4 a b ha hb, u16be'_v4 c d hc hdd]
+
+
+theorem runV_eq (Q : List UInt8) (gs : List Nat) :
+    runV Q 0 gs = groupsThenQuad gs Q ∧ ∀ i, runV Q (i + 1) gs = 58 :: groupsThenQuad gs Q := by
+  induction gs with
+  | nil => exact ⟨by simp [runV, groupsThenQuad], fun i => by simp [runV, groupsThenQuad]⟩
+  | cons g gs ih =>
+    have h1 := ih.2 0
+    refine ⟨?_, fun i => ?_⟩
+    · simp only [runV, Nat.lt_irrefl, ↓reduceIte, List.nil_append, h1]
+      cases gs <;> simp [groupsThenQuad, groupsText]
+    · simp only [runV, Nat.succ_pos, ↓reduceIte, List.singleton_append, ih.2 (i + 1)]
+      cases gs <;> simp [groupsThenQuad, groupsText]
+
 end QV.ZF
